@@ -60,6 +60,7 @@ type vfTransport struct {
 	duplicate    bool // the request is delivered twice; the second response is returned
 	died         bool // the server died while serving (set when the store's fault plan fired)
 	calls        int
+	wire         bool // the two directions of the wire are scheduling points (interleaving mode)
 }
 
 func (t *vfTransport) ProcessPushPull(ctx gocontext.Context, in *model.PushPullMessage, opts ...grpc.CallOption) (res *model.PushPullMessage, err error) {
@@ -72,11 +73,17 @@ func (t *vfTransport) ProcessPushPull(ctx gocontext.Context, in *model.PushPullM
 			res, err = nil, errors.ClientSync.New(nil, "connection lost")
 		}
 	}()
+	if t.wire {
+		vf.Yield()
+	}
 	if t.duplicate {
 		t.duplicate = false
 		_, _ = t.w.svc.ProcessPushPull(ctx, copyMsg(in))
 	}
 	r, e := t.w.svc.ProcessPushPull(ctx, copyMsg(in))
+	if t.wire {
+		vf.Yield()
+	}
 	if t.dropResponse {
 		t.dropResponse = false
 		return nil, errors.ClientSync.New(nil, "response lost")
@@ -107,6 +114,7 @@ type vfPeer struct {
 	cli     orda.Client
 	cnt     orda.Counter
 	errs    int
+	errText string
 	states  []model.StateOfDatatype
 	lastS   uint64
 	lastC   uint64
@@ -124,7 +132,12 @@ func (p *vfPeer) handlers() *orda.Handlers {
 	return orda.NewHandlers(
 		func(dt orda.Datatype, old, new model.StateOfDatatype) { p.states = append(p.states, new) },
 		func(dt orda.Datatype, opList []interface{}) {},
-		func(dt orda.Datatype, errs ...errors.OrdaError) { p.errs += len(errs) },
+		func(dt orda.Datatype, errs ...errors.OrdaError) {
+			p.errs += len(errs)
+			for _, e := range errs {
+				p.errText += e.Error() + ";"
+			}
+		},
 	)
 }
 
